@@ -111,9 +111,14 @@ Section Final.
     exists k u, url_attr_of elem = Some k /\ key_is k a1 = true /\ valid_url I p (aval a1) = Some u /\
       a = (akey a1, if beqb k (B"src") then match srcRewriter p with Some f => rewrite I f u | None => u end else u).
 
+  (* does the URL pass look at this attribute of this element? *)
+  Definition url_checked (elem : bytes) (a : attr) : bool :=
+    linkable elem && requireParseableURLs p &&
+    match url_attr_of elem with Some k => key_is k a | None => false end.
+
   Definition from_filter (elem : bytes) (attrs : list attr) (aps : amap (list (attr_policy M))) (a : attr) : Prop :=
     exists a0 a1, In a0 attrs /\ In a1 (filter_attr I p elem aps (has_style_policies I p elem) a0) /\
-                  (a = a1 \/ url_rewritten elem a1 a).
+                  ((a = a1 /\ url_checked elem a1 = false) \/ (url_checked elem a1 = true /\ url_rewritten elem a1 a)).
 
   Definition provenance (elem : bytes) (attrs : list attr) (aps : amap (list (attr_policy M))) (a : attr) : Prop :=
     forced_key (akey a) = true \/ from_filter elem attrs aps a.
@@ -129,28 +134,32 @@ Section Final.
     set (clean := flat_map _ attrs0).
     assert (Hc : Forall (fun a => exists a0, In a0 attrs0 /\ In a (filter_attr I p elem aps (has_style_policies I p elem) a0)) clean).
     { apply Forall_forall. intros a Ha. subst clean. apply in_flat_map in Ha. exact Ha. }
-    assert (Hc0 : Forall P clean).
-    { eapply Forall_impl; [|exact Hc]. intros a (a0 & H0 & H1). right. exists a0, a. split; [exact H0 | split; [exact H1 | left; reflexivity]]. }
+    assert (Hc0 : (forall a, url_checked elem a = false) -> Forall P clean).
+    { intros Hnc. eapply Forall_impl; [|exact Hc]. intros a (a0 & H0 & H1). right. exists a0, a. split; [exact H0 | split; [exact H1 | left; split; [reflexivity | apply Hnc]]]. }
     destruct clean as [|c0 cl] eqn:Ec; [constructor|]. rewrite <- Ec in *.
     apply sandbox_pass_prov; [exact HP|]. apply crossorigin_pass_prov; [exact HP|].
-    destruct (linkable elem) eqn:El; [|exact Hc0]. apply link_pass_prov; [exact HP|].
-    destruct (requireParseableURLs p) eqn:Er; [|exact Hc0].
+    destruct (linkable elem) eqn:El; [|apply Hc0; intros a0; unfold url_checked; rewrite El; reflexivity]. apply link_pass_prov; [exact HP|].
+    destruct (requireParseableURLs p) eqn:Er; [|apply Hc0; intros a0; unfold url_checked; rewrite El, Er; reflexivity].
     apply Forall_forall. intros a Ha. apply in_flat_map in Ha as (a1 & Ha1 & Ha).
     rewrite Forall_forall in Hc. destruct (Hc _ Ha1) as (a0 & H0 & H1).
     unfold url_pass_attr in Ha. destruct (url_attr_of elem) as [k|] eqn:Ek.
     - destruct (key_is k a1) eqn:Ekey.
       + destruct (valid_url I p (aval a1)) as [u|] eqn:Ev; [|contradiction]. destruct Ha as [<-|[]].
         right. exists a0, a1. split; [exact H0|]. split; [exact H1|]. right.
+        split; [unfold url_checked; rewrite El, Er, Ek, Ekey; reflexivity|].
         split; [exact El|]. split; [exact Er|]. exists k, u. auto.
-      + destruct Ha as [<-|[]]. right. exists a0, a1. split; [exact H0 | split; [exact H1 | left; reflexivity]].
-    - destruct Ha as [<-|[]]. right. exists a0, a1. split; [exact H0 | split; [exact H1 | left; reflexivity]].
+      + destruct Ha as [<-|[]]. right. exists a0, a1. split; [exact H0 | split; [exact H1 | left; split; [reflexivity|]]].
+        unfold url_checked. rewrite El, Er, Ek, Ekey. reflexivity.
+    - destruct Ha as [<-|[]]. right. exists a0, a1. split; [exact H0 | split; [exact H1 | left; split; [reflexivity|]]].
+      unfold url_checked. rewrite El, Er, Ek. reflexivity.
   Qed.
 
   (* with the justification of the filtering loop: the full C02 statement for one attribute *)
   Corollary sanitize_attrs_justified elem attrs aps a :
     In a (sanitize_attrs I p elem attrs aps) ->
     forced_key (akey a) = true \/
-    exists a0 a1, In a0 attrs /\ attr_justified I p elem aps a0 a1 /\ (a = a1 \/ url_rewritten elem a1 a).
+    exists a0 a1, In a0 attrs /\ attr_justified I p elem aps a0 a1 /\
+      ((a = a1 /\ url_checked elem a1 = false) \/ (url_checked elem a1 = true /\ url_rewritten elem a1 a)).
   Proof.
     intros H. destruct (sanitize_attrs_provenance _ _ _ _ H) as [Hf|(a0 & a1 & H0 & H1 & H2)]; [left; exact Hf|].
     right. exists a0, a1. split; [exact H0|]. split; [|exact H2].
@@ -160,3 +169,4 @@ End Final.
 Arguments sanitize_attrs_provenance {M U R} I p elem attrs aps a.
 Arguments sanitize_attrs_justified {M U R} I p elem attrs aps a.
 Arguments url_rewritten {M U R} I p elem a1 a.
+Arguments url_checked {M U R} p elem a.
